@@ -2,12 +2,53 @@
 import drivers.c15  # noqa: F401   (registers the drivers)
 
 PROP = "C15"
-LEVEL = "exploration"
-LEVEL_TEXT = "tbd"
-LEVEL_NOTE = "tbd"
+LEVEL = "exploration"          # until the E1 (SMT) part is added by the main session; do not claim more
+LEVEL_TEXT = ("Bounded run-time contracts only: every public routine of the family (kron / kronpow / & with every ownership "
+              "range, ikron in all its placement modes, pkron, permute, partial_trace / ptr / itrace, partial_transpose, "
+              "dim_map, dim_compress, dynal helpers, the ham_* builders with ownership) is compared with an explicit numpy "
+              "reference on dimension lists with 1..5 subsystems, dims 1..8 (incl. dims of 1), total dimension <= 64, dense "
+              "and csr/csc/coo/bsr inputs, four dtypes. For products and Hamiltonians with D <= 36 / 32 rows EVERY ownership "
+              "range 0 <= ri < rf <= D is enumerated. Nothing is proved for larger systems.")
+LEVEL_NOTE = ("Trusted: numpy kron / einsum / fancy indexing used by the references in drivers/c15.py; tolerances 1e-10 (double) "
+              "and 3e-4 (single) relative to max(1, |ref|_max); 7 input classes on which the unchanged library crashes or "
+              "returns a wrongly shaped result are recorded as known findings C15-a..g and are therefore not value-checked.")
 TECHNIQUE = "run-time contracts on the real functions vs independent numpy references over a stated bounded domain (bounded stand-in)"
-E1 = []
+E1 = []                        # filled later by the main session
 PROVIDERS = []
-TRUSTED = ["numpy / scipy.linalg reference computations"]
-ASSUMPTIONS = []
-EXPLANATION = "tbd"
+TRUSTED = [
+    "numpy reference computations (np.kron, np.einsum, reshape / fancy indexing) in drivers/c15.py",
+    "scipy.sparse constructors and .toarray() used to build sparse inputs and to densify results",
+    "numpy.random legacy generator reproduces ham_mbl's documented field distribution for a given seed",
+]
+ASSUMPTIONS = [
+    "total Hilbert-space dimension 2..64 (a 1x1 object is both ket and operator and is excluded); 1..5 subsystems; "
+    "subsystem dimensions 1..8; kron ownership exhaustively for D <= 36, Hamiltonians for D <= 32 (2..5 spins, 2D up to "
+    "2x3 with sampled ranges at D = 64)",
+    "partial_trace / permute / ikron treat an index collection as a set where the docstrings do: the reduced state is "
+    "ordered by ascending subsystem index whatever the order of `keep`; an operator overlaid with ikron covers the "
+    "subsystems from its first to its last index (the form ham_j1j2 relies on) and is only exercised where that reading "
+    "is unambiguous (operator larger than 1x1, first subsystem of dimension > 1 when there are gaps)",
+    "sparse partial trace is only required for Hermitian operators and kets (documented domain: 'ket or density "
+    "operator'; the sparse route symmetrises); the dense route is checked on general operators too",
+    "partial_transpose of a vector: the vector is a ket (quimbify documents that a vector is assumed to be a ket), so "
+    "bras are outside its domain; bras are in the domain of kron and permute",
+    "representation of results (dense vs sparse, sparse format) is checked only where the call fixes it (stype given and "
+    "result sparse for kron / ikron, sparse= / stype= of the ham_* builders); pkron ignores stype (always csr) -- noted, "
+    "not counted as a violation of this property",
+    "field sign conventions taken from the docstrings where given (ham_heis: -B.S, ham_j1j2: +Bz Sz, ham_mbl random "
+    "fields: +h.S) and from the code where the docstring is silent (ham_heis_2D: +bz Sz, ham_mbl bz: -bz Sz via ham_heis)",
+    "cyclic chains of 2 sites count the single bond twice (sum over i of S_i.S_{i+1 mod n}); cyclic j1j2 needs n >= 3 and "
+    "cyclic 2D lattices need both extents >= 2 (self-bonds are meaningless)",
+    "tolerances: 1e-10 for float64 / complex128, 3e-4 for float32 / complex64, relative to max(1, max|reference|)",
+]
+EXPLANATION = (
+    "E3 (bounded): 7 drivers. dynal-helpers: mixed-radix digits, matching-digit prefix and factor slicing used by the "
+    "ownership arithmetic. kron-ownership-exhaustive: kron over 21 factor-shape lists x dense/sparse/mixed formats x stype x "
+    "coo_build x parallel, the full product and every row range; kronpow; the & operator. ikron-embedding: every placement "
+    "mode (single site, overlay on a run, overlay across gaps, repeated operator, cyclic placement, one operator per site in "
+    "any order, dims of -1) x option grid x random and exhaustive ownership ranges. dim-map-compress: coordinate flattening "
+    "with wrap / trim / reject in 1-3 grid dimensions, ikron and partial_trace with nested dims, dim_compress as a "
+    "bipartition-preserving map. permute-pkron: all permutations of kets / bras / operators in every format, products, "
+    "permute-then-embed, pkron on every ordered subset. partial-trace: every subset of kept subsystems for kets, dense and "
+    "sparse operators, ket vs projector, adjointness with ikron / pkron, partial_transpose, itrace. hamiltonians-ownership: "
+    "six 1-d builders and the 2-d Heisenberg builder vs explicit sums of Kronecker products, with every ownership range.")
